@@ -251,6 +251,19 @@ def call(ev, name, args, kwargs, node):
     if name in ("add", "subtract", "multiply", "divide", "true_divide", "power") and n_args == 2 and not kw:
         op = {"add": ast.Add, "subtract": ast.Sub, "multiply": ast.Mult, "divide": ast.Div, "true_divide": ast.Div, "power": ast.Pow}[name]()
         return ev.binop(op, args[0], args[1], node)
+    if name == "fmod" and n_args == 2 and not kw:
+        return ev._np_call("fmod", args, {}, node) if False else NotImplemented
+    if name == "copysign" and n_args == 2 and not kw:
+        x, y = arr(args[0]), arr(args[1])
+        if isinstance(x, list) or isinstance(y, list):
+            return NotImplemented
+        x, y = num(x), num(y)
+        if (x * x).equals(y * y):
+            return y                  # |x| = |y|: the number with the magnitude of x and the sign of y is y
+        if y.is_const():
+            ax = ev.apply_unary("abs", x, node)
+            return ax if y.const_value() >= 0 else -ax
+        return NotImplemented
     if name == "hypot" and n_args == 2 and not kw:
         sq = ev.binop(ast.Add(), ev.binop(ast.Mult(), args[0], args[0], node), ev.binop(ast.Mult(), args[1], args[1], node), node)
         return ev._np_call("sqrt", [sq], {}, node)
@@ -433,7 +446,7 @@ def call(ev, name, args, kwargs, node):
                 "tile", "repeat", "take", "delete", "fliplr", "flipud", "rot90", "flatnonzero", "nonzero", "argwhere", "compress",
                 "extract", "select", "choose", "full_like", "fromiter", "block", "dstack", "array_split", "split", "hsplit", "vsplit",
                 "triu_indices", "tril_indices", "diag_indices", "indices", "meshgrid", "ix_", "linspace", "apply_along_axis",
-                "result_type", "isscalar", "isfinite", "isnan", "isinf", "copy", "append", "insert", "cumsum", "diff", "ptp",
+                "result_type", "promote_types", "isscalar", "isfinite", "isnan", "isinf", "copy", "append", "insert", "cumsum", "diff", "ptp",
                 "tri", "diagflat", "fill_diagonal", "unravel_index", "ravel_multi_index", "triu_indices_from", "tril_indices_from",
                 "permute_dims", "vander", "dot"):
         r = _shape_call(ev, name, args, kw, node, arr, wrap, num, ints, axis_of, err)
@@ -759,7 +772,17 @@ def _shape_call(ev, name, args, kw, node, arr, wrap, num, ints, axis_of, err):
             o = o.data if isinstance(o, Arr) else arr(o)
             return o[ix[ax]]
         return wrap(nd_build(full, entry))
-    if name == "result_type":
+    if name in ("isfinite", "isnan", "isinf") and n_args == 1 and not kw:
+        # the values the analysis ranges over are real numbers: finite, not NaN
+        d = arr(args[0])
+        ans = name == "isfinite"
+        def one(x):
+            if isinstance(x, bool):
+                return ans
+            scalar(x)
+            return ans
+        return wrap(nd_map(one, d)) if isinstance(d, list) else one(d)
+    if name in ("result_type", "promote_types"):
         return ("npfunc", "float64")          # every dtype xfab computes with on this path is a float type; used only as dtype=
     if name == "isscalar" and n_args == 1 and not kw:
         v = args[0]
